@@ -8,6 +8,7 @@ import Driver.Server
 import Driver.Filter
 import Driver.Dav
 import Driver.AuthGate
+import Driver.PropsReq
 import Driver.Sync
 import Driver.Cache
 import Driver.Skeleton
@@ -27,6 +28,7 @@ def dispatch (j : Json) : Json :=
   | "cache" => Driver.handleCache j
   | "skeleton" => Driver.handleSkeleton j
   | "fold" => Driver.handleFold j
+  | "propsreq" => Driver.handlePropsReq j
   | "ping" => Driver.obj [("r", Json.str "pong")]
   | _ => Driver.obj [("error", Json.str "bad-model")]
 
